@@ -175,21 +175,25 @@ def build(tier, seed):
         for gen, opts in (("generic", "'generate_for_pack': False, 'generate_for_unpack': False"), ("generated", "")):
             for init in "cCK":
                 for first in steps:
-                    hists = [(init, first) + rest for rest in itertools.product(steps, repeat=n - 1)]
-                    if tier == "quick":
-                        hists = [h for i, h in enumerate(hists) if True]
-                    src = SRC % dict(opts=opts, kind=kind, histories=hists)
-                    obs.append({"id": "C17/%s/%s/%s%s" % (kind, gen, init, first), "module": "c17_%s_%s_%s%s" % (kind.lower(), gen, init, first),
-                                "source": src, "fn": ["h%d" % i for i in range(len(hists))], "required_tags": ["consistent"],
-                                "timeout": 240 if tier == "quick" else 900,
-                                "bound": "all %d histories starting %s%s followed by %d more ops over {T set tracked, S set described, D delete, "
-                                         "U unpack, P pack}; explicit values unbounded ints, tracked contents <=2 symbolic bytes / a byte"
-                                         % (len(hists), init, first, n - 1),
-                                "assertion": "after every step: attribute == explicit ?? f(tracked); pack() serialises exactly that (PacketError "
-                                             "iff not representable); no instance __dict__; pack leaves the attribute unchanged",
-                                "decl_text": {"AL": "n = Int(1).describe(AutoLength('d')); d = Data(n)",
-                                              "AS": "n = Int(1).describe(AutoLength('s')); s = Int(1).repeated(n)",
-                                              "AF": "a = Int(1); n = Int(1).describe(Auto(lambda pkt: (pkt.a*2+1) % 256))"}[kind]})
+                    seconds = [""] if tier == "quick" else list(steps)
+                    for second in seconds:
+                        if second:
+                            hists = [(init, first, second) + rest for rest in itertools.product(steps, repeat=n - 2)]
+                        else:
+                            hists = [(init, first) + rest for rest in itertools.product(steps, repeat=n - 1)]
+                        src = SRC % dict(opts=opts, kind=kind, histories=hists)
+                        tag = init + first + second
+                        obs.append({"id": "C17/%s/%s/%s" % (kind, gen, tag), "module": "c17_%s_%s_%s" % (kind.lower(), gen, tag),
+                                    "source": src, "fn": ["h%d" % i for i in range(len(hists))], "required_tags": ["consistent"],
+                                    "timeout": 240 if tier == "quick" else 900,
+                                    "bound": "all %d histories starting %s followed by %d more ops over {T set tracked, S set described, D delete, "
+                                             "U unpack, P pack}; explicit values unbounded ints, tracked contents <=2 symbolic bytes / a byte"
+                                             % (len(hists), tag, 1 + n - len(tag)),
+                                    "assertion": "after every step: attribute == explicit ?? f(tracked); pack() serialises exactly that (PacketError "
+                                                 "iff not representable); no instance __dict__; pack leaves the attribute unchanged",
+                                    "decl_text": {"AL": "n = Int(1).describe(AutoLength('d')); d = Data(n)",
+                                                  "AS": "n = Int(1).describe(AutoLength('s')); s = Int(1).repeated(n)",
+                                                  "AF": "a = Int(1); n = Int(1).describe(Auto(lambda pkt: (pkt.a*2+1) % 256))"}[kind]})
     return {"obligations": obs,
             "bounds": {"history_length": 1 + n, "initial": "c (no keyword), C (described keyword), K (tracked keyword)", "ops": steps},
             "outside": ["histories longer than %d operations" % (1 + n), "tracked contents longer than 2 bytes / elements"],
